@@ -37,8 +37,11 @@ def r1(ctx):
         conditional = False
         if dominated:
             rbi = dominated[0][0]
-            # a path from the read to a return that avoids the write
-            region = b.reach_from_edges(b.succ()[rbi], avoid={bi})
+            # a SUCCESS path from the read to a return that avoids the write (error returns of `?`
+            # do not count: they skip the write whatever the existing row is)
+            residual = {x for x, tt in b.calls() if tt["f"].get("name") == "from_residual"}
+            errs = {x for x, si, s in b.statements() if s["k"] == "assign" and s["p"]["l"] == 0 and s["r"][0] == "agg" and s["r"][1][0] == "adt" and s["r"][1][2] == "Err"}
+            region = b.reach_from_edges(b.succ()[rbi], avoid={bi} | residual | errs)
             conditional = any(b.blocks[x]["t"]["k"] == "return" for x in region)
         ctx.check(bool(dominated) and conditional, "C13.R1", b.path, "head-write-conditional-on-existing-row",
                   "the head row is written only after reading the existing row and only on some outcomes of that read" if dominated and conditional else
